@@ -15,7 +15,8 @@ computes from the value read and its clock reading.  The clock is a counter that
 (`tick d`, `d : Nat`); between any two atomic steps any other thread may run and any time may pass.
 A thread is a list of calls; a schedule is a list of events.  The atomic steps are exactly the segments
 between the park points the harness uses on the real code (`gau.afterRead`, the injected clock's `Now`,
-`gau.beforeLock`).
+`gau.beforeLock`).  A call with `retry` answers a refused commit by starting over (a loop around the
+write in the trait model); all other calls hand `Aborted` to their caller.
 -/
 namespace ScVerif.C20.Gau
 
@@ -26,6 +27,10 @@ structure Call (σ ε : Type) where
   /-- `false`: the change function does not read the clock at all (`apply` ignores its instant): the
   call goes from its checks straight to the lock -/
   timed : Bool := true
+  /-- `true`: the caller makes the call again when the compare-and-commit refuses it (`Aborted`), as
+  `parentpb.AddChildTrait` / `RemoveChildTrait` do since fix 1e16ef0 (they have nobody to hand the error
+  to): the refused attempt ends without a result and the call starts over with a fresh read -/
+  retry : Bool := false
 
 inductive Phase (σ : Type) where
   | start                          -- nothing read yet
@@ -60,6 +65,7 @@ def callStep (store : σ) (now : Int) (c : Call σ ε) : Phase σ → σ × Phas
   | .ready o t =>
     -- under the write lock: `if !proto.Equal(oldValue, oldValueAgain) → Aborted`, else save(newValue)
     if store = o then (c.apply o t, .start, some (.ok (c.apply o t)))
+    else if c.retry then (store, .start, none)
     else (store, .start, some .aborted)
 
 structure Thread (σ ε : Type) where
